@@ -270,9 +270,14 @@ def run(ctx):
         rng = ctx.rng
         cases = []
         thorough = ctx.tier == "thorough"
-        workloads = [Workload(ctx, env, flags, corpus_program(), "corpus")]
+        workloads = []
+        w0 = ctl_db.guarded(ctx, "corpus", lambda: Workload(ctx, env, flags, corpus_program(), "corpus"))
+        if w0 is not None:
+            workloads.append(w0)
         for i in range(ctx.n(2, 12)):
-            workloads.append(Workload(ctx, env, flags, ctl_db.gen_program(rng, ns="gc22g"), f"gen{i}"))
+            w = ctl_db.guarded(ctx, f"gen{i}", lambda i=i: Workload(ctx, env, flags, ctl_db.gen_program(rng, ns="gc22g"), f"gen{i}"))
+            if w is not None:
+                workloads.append(w)
         for wi, w in enumerate(workloads):
             cases.append(w.clean)
             full = (wi == 0) or thorough
@@ -280,14 +285,14 @@ def run(ctx):
             crash_ks = ks if full else sorted(rng.sample(ks, min(len(ks), 4)))
             fault_ks = ks if full else sorted(rng.sample(ks, min(len(ks), 4)))
             for k in crash_ks:
-                crash_case(ctx, w, k, cases)
+                ctl_db.guarded(ctx, f"{w.label}:crash@{k}", lambda k=k: crash_case(ctx, w, k, cases))
             for k in fault_ks:
-                fault_case(ctx, w, k, "commit", cases)
+                ctl_db.guarded(ctx, f"{w.label}:fault@{k}", lambda k=k: fault_case(ctx, w, k, "commit", cases))
             # statement-level faults: every statement in the thorough tier, a sample otherwise
             nst = 0
             stmt_ks = list(range(1, 400)) if (thorough and wi < 3) else sorted(rng.sample(range(1, 160), 6 if wi == 0 else 2))
             for k in stmt_ks:
-                if not fault_case(ctx, w, k, "stmt", cases):
+                if not ctl_db.guarded(ctx, f"{w.label}:fault-stmt@{k}", lambda k=k: fault_case(ctx, w, k, "stmt", cases), True):
                     break
                 nst += 1
         # ---- model replay
